@@ -14,9 +14,9 @@ HARNESS = {
     "h_sem": (["platform/linux/src/nsync_semaphore_futex.c", "platform/posix/src/time_rep.c"], [], []),
     "h_dll": (["internal/dll.c"], [], []),
     "h_mu": (NSYNC_CORE + ["platform/linux/src/nsync_semaphore_futex.c", "platform/posix/src/time_rep.c"], [], []),
-    "h_l2": ([f for f in NSYNC_CORE if f not in ("internal/mu.c", "internal/mu_wait.c")]
+    "h_l2": ([f for f in NSYNC_CORE if f not in ("internal/mu.c", "internal/mu_wait.c", "internal/cv.c", "internal/debug.c")]
              + ["platform/linux/src/nsync_semaphore_futex.c", "platform/posix/src/time_rep.c"], ["ideal_mu.c"], []),
-    "h_l2r": (NSYNC_CORE + ["platform/linux/src/nsync_semaphore_futex.c", "platform/posix/src/time_rep.c"], [], []),
+    "h_l2r": (NSYNC_CORE + ["platform/linux/src/nsync_semaphore_futex.c", "platform/posix/src/time_rep.c"], [], [], "h_l2"),
 }
 WRAPS = ["syscall", "clock_gettime", "nanosleep", "malloc", "free",
          "nsync_mu_semaphore_p", "nsync_mu_semaphore_p_with_deadline", "nsync_mu_semaphore_v",
@@ -51,7 +51,9 @@ def build(harness, flavour="c", out=None, repo="/repo", extra_defs=(), harness_s
     test, their headers, the runtime, flags), so concurrent checks share a finished build and an edit to /repo
     always gives a fresh one."""
     import fcntl, glob, shutil, time
-    srcs, rtextra, wraps = HARNESS[harness]
+    srcs, rtextra, wraps = HARNESS[harness][:3]
+    if len(HARNESS[harness]) > 3 and not harness_src:
+        harness_src = HARNESS[harness][3]
     inc = includes(repo, flavour)
     cc = ["g++", "-std=c++11", "-x", "c++", "-fpermissive"] if flavour == "cpp" else ["gcc"]
     uut_flags = ["-O1", "-fno-inline", "-g", "-fsanitize=thread", "-fno-pic", "-fno-pie", "-w"] + list(extra_defs)
@@ -77,11 +79,16 @@ def build(harness, flavour="c", out=None, repo="/repo", extra_defs=(), harness_s
     fcntl.flock(lock, fcntl.LOCK_EX)
     try:
         if os.path.exists(exe) and os.path.exists(os.path.join(out, ".done")):
+            os.utime(os.path.join(out, ".done"))
             return exe
         # drop stale builds of the same harness
-        olds = sorted(glob.glob(os.path.join(base, "%s_%s_*" % (harness, flavour))), key=os.path.getmtime)
-        for d in olds[:-2]:
-            shutil.rmtree(d, ignore_errors=True)
+        # drop builds of this harness that nobody has used for six hours (other trees may be under test concurrently)
+        for d in glob.glob(os.path.join(base, "%s_%s_*" % (harness, flavour))):
+            try:
+                if time.time() - os.path.getmtime(os.path.join(d, ".done")) > 6 * 3600:
+                    shutil.rmtree(d, ignore_errors=True)
+            except OSError:
+                pass
         os.makedirs(out, exist_ok=True)
         _do_build(harness, flavour, out, repo, srcs, rt_srcs, inc, cc, uut_flags, wraps, extra_defs, exe)
         open(os.path.join(out, ".done"), "w").write("ok")
